@@ -77,19 +77,19 @@ A `time.Time` is the number of nanoseconds since the ZERO time (January 1, year 
 is `0` = `default` and every real instant is positive; a `time.Duration` is an `Int` of nanoseconds.
 `Sub` saturates like Go's (±2^63 ns); the monotonic clock reading is not modelled. -/
 
-abbrev Time := Int
+abbrev Time := Int   -- (the functions below are stated on `Int` so that `omega` sees their arithmetic)
 
 def maxDuration : Int := 9223372036854775807
 def minDuration : Int := -9223372036854775808
 
-def time_IsZero (t : Time) : Bool := t == 0
-def time_Before (a b : Time) : Bool := decide (a < b)
-def time_After (a b : Time) : Bool := decide (a > b)
-def time_Equal (a b : Time) : Bool := a == b
-def time_Add (t : Time) (d : Int) : Time := t + d
+def time_IsZero (t : Int) : Bool := t == 0
+def time_Before (a b : Int) : Bool := decide (a < b)
+def time_After (a b : Int) : Bool := decide (a > b)
+def time_Equal (a b : Int) : Bool := a == b
+def time_Add (t : Int) (d : Int) : Int := t + d
 /-- `t.Truncate(d)`: down to a multiple of `d` since the zero time (`d ≤ 0`: unchanged) -/
-def time_Truncate (t : Time) (d : Int) : Time := if d ≤ 0 then t else t - t % d
-def time_Sub (a b : Time) : Int :=
+def time_Truncate (t : Int) (d : Int) : Int := if d ≤ 0 then t else t - t % d
+def time_Sub (a b : Int) : Int :=
   if a - b > maxDuration then maxDuration else if a - b < minDuration then minDuration else a - b
 
 /-! ### package `strings` -/
